@@ -984,6 +984,8 @@ type ContGenConfig struct {
 	MaxExecs   int // default 25
 	MaxOps     int // default 12
 	Injections bool
+	// SkipBuild: do not start with the transaction that builds a multi-slab array and dictionary
+	SkipBuild bool
 }
 
 var contBulk = []int{1, 3, 60, 8, 150, 25, 400}
@@ -1005,20 +1007,50 @@ func GenContHistory(s Src, cfg ContGenConfig) ContHistory {
 	m := NewContModel(h.Elem, h.Key)
 	seed := 10
 	fresh := func() int { seed++; return seed }
-	n := 1 + s.Intn("execs", cfg.MaxExecs)
+	n := 3 + s.Intn("execs", max(1, cfg.MaxExecs-2))
+	sawBadIndex := false
+	// Most histories start by building a multi-slab array and dictionary (bulk growth far beyond one
+	// 1 KiB slab), so that everything after the first commit works on containers spread over several slabs.
+	if !cfg.SkipBuild && !chance(s, "small", 12) {
+		count := []int{600, 300, 250, 250}[h.Elem] + s.Intn("buildextra", 60)
+		from := fresh()
+		for k := 0; k < count; k++ {
+			fresh()
+		}
+		dfrom, dseed, dcount := s.Intn("dbuildfrom", 50), fresh(), 150+s.Intn("dbuildextra", 100)
+		for k := 0; k < dcount; k++ {
+			fresh()
+		}
+		e := ContExec{Ops: []ContOp{
+			{On: "va", Kind: "appendAll", I: from, J: count},
+			{On: "d", Kind: "insertMany", I: dfrom, J: dcount, N: dseed},
+		}}
+		h.Execs = append(h.Execs, e)
+		m.Step(e)
+	}
 	for len(h.Execs) < n {
-		e := ContExec{Script: chance(s, "script", 12), Local: chance(s, "local", 35)}
+		e := ContExec{Script: chance(s, "script", 12), Local: chance(s, "local", 30)}
 		nOps := 1 + s.Intn("nops", cfg.MaxOps)
 		scratch := &ContModel{Elem: m.Elem, Key: m.Key, S: m.S.clone()}
 		var x ContExpect
-		for i := 0; i < nOps; i++ {
+		failed := false
+		// Every execution is a fresh runtime over the ledger (nothing is loaded yet). When it works in place
+		// through references it mostly starts with a READ-ONLY query, before any mutating or fully iterating
+		// operation could load the slabs.
+		if !e.Local && chance(s, "probe", 80) {
+			if o, ok := genContProbe(s, scratch); ok {
+				e.Ops = append(e.Ops, o)
+				failed = scratch.apply(0, o, &x) != ""
+			}
+		}
+		for i := 0; i < nOps && !failed; i++ {
 			o, ok := genContOp(s, scratch, e.Local, fresh)
 			if !ok {
 				continue
 			}
 			e.Ops = append(e.Ops, o)
 			if fail := scratch.apply(len(e.Ops)-1, o, &x); fail != "" {
-				break
+				failed = true
 			}
 		}
 		if len(e.Ops) == 0 {
@@ -1030,9 +1062,61 @@ func GenContHistory(s Src, cfg ContGenConfig) ContHistory {
 			e.Inject = &Inject{Kind: "panic", Pos: len(e.Ops)}
 		}
 		h.Execs = append(h.Execs, e)
+		if x := m.Step(e); x.Facts.BadIndex {
+			sawBadIndex = true
+		}
+	}
+	if !sawBadIndex {
+		// every history contains at least one operation with an invalid index
+		bad := ContOp{On: "va", Kind: []string{"get", "remove", "set", "insert"}[s.Intn("badop", 4)], I: len(m.S.VA) + 1 + s.Intn("badby", 3), N: fresh()}
+		e := ContExec{Ops: []ContOp{{On: "va", Kind: "length"}, bad}}
+		h.Execs = append(h.Execs, e)
 		m.Step(e)
 	}
 	return h
+}
+
+// genContProbe draws a read-only query (through a reference) aimed at the first / middle / last element
+// or slab of the stored containers, or at an absent element.
+func genContProbe(s Src, m *ContModel) (ContOp, bool) {
+	st := m.S
+	n := len(st.VA)
+	pos := func() int { // an index near the start, the middle or the end
+		if n == 0 {
+			return 0
+		}
+		return []int{0, n / 2, n - 1, n / 4, 3 * n / 4}[s.Intn("probepos", 5)]
+	}
+	elemAt := func() int {
+		if n == 0 || chance(s, "absent", 20) {
+			return 1000000 + s.Intn("absentseed", 1000)
+		}
+		return st.VA[pos()]
+	}
+	keys := sortedIntKeys(st.D)
+	key := func() int {
+		if len(keys) == 0 || chance(s, "absentkey", 20) {
+			return 5000 + s.Intn("absentk", 100)
+		}
+		return keys[[]int{0, len(keys) / 2, len(keys) - 1}[s.Intn("keypos", 3)]]
+	}
+	prim := elemPrimitive(m.Elem)
+	var cands []ContOp
+	if prim && elemEquatable(m.Elem) {
+		cands = append(cands, ContOp{On: "va", Kind: "contains", N: elemAt()}, ContOp{On: "va", Kind: "contains", N: elemAt()},
+			ContOp{On: "va", Kind: "contains", N: elemAt()}, ContOp{On: "va", Kind: "contains", N: elemAt()},
+			ContOp{On: "va", Kind: "firstIndex", N: elemAt()}, ContOp{On: "va", Kind: "firstIndex", N: elemAt()}, ContOp{On: "ca", Kind: "contains", N: st.CA[s.Intn("capos", ConstLen)]})
+	}
+	if prim && n > 0 {
+		i := pos()
+		cands = append(cands, ContOp{On: "va", Kind: "slice", I: i, J: min(n, i+3)})
+	}
+	if n > 0 {
+		cands = append(cands, ContOp{On: "va", Kind: "get", I: pos()})
+	}
+	cands = append(cands, ContOp{On: "va", Kind: "length"}, ContOp{On: "d", Kind: "containsKey", I: key()}, ContOp{On: "d", Kind: "get", I: key()},
+		ContOp{On: "d", Kind: "containsKey", I: key()}, ContOp{On: "d", Kind: "length"})
+	return cands[s.Intn("probe", len(cands))], true
 }
 
 func sortedIntKeys(m map[int]int) []int {
